@@ -1,3 +1,99 @@
-/-! # C01 — property theorems (stub: not built yet) -/
+import PymtlVerif.Proofs.Rtl
+import PymtlVerif.Props.C07
+/-!
+# C01 — simulation results do not depend on the schedule chosen
+
+Abstract part (`Proofs/Sched.lean`): for single-writer block sets, every topological order reaches the
+unique fixed point of the dataflow equations. Concrete part: the same for the executable RTL model
+(`Model/Rtl.lean`), where "legal schedule" is the Boolean check `topoB` the driver evaluates on the
+schedules the real passes produce, and the whole `sim_tick` (comb, ff, flip, comb).
+-/
 namespace PV.C01
+open PV.Rtl PV.Sched
+
+/-! ## abstract theorems (any variable and value types) -/
+
+theorem abstract_fixed_point {Var Val : Type} (bs : List (Sched.Blk Var Val)) (hwf : ∀ b ∈ bs, b.Wf)
+    (hsw : SingleWriter bs) (htopo : Topo bs) (s : Sched.St Var Val) :
+    ∀ b ∈ bs, b.run (runList bs s) = runList bs s :=
+  fixed_point_of_topo bs hwf hsw htopo s
+
+theorem abstract_unique {Var Val : Type} (bs : List (Sched.Blk Var Val)) (hwf : ∀ b ∈ bs, b.Wf)
+    (htopo : Topo bs) (t t' : Sched.St Var Val)
+    (hin : ∀ v, (∀ b ∈ bs, ¬ b.W v) → t v = t' v)
+    (ht : ∀ b ∈ bs, b.run t = t) (ht' : ∀ b ∈ bs, b.run t' = t') : t = t' :=
+  unique_fixed_point bs hwf htopo t t' hin ht ht'
+
+theorem abstract_schedule_independent {Var Val : Type} (o1 o2 : List (Sched.Blk Var Val)) (hperm : o1.Perm o2)
+    (hwf : ∀ b ∈ o1, b.Wf) (hsw : SingleWriter o1) (h1 : Topo o1) (h2 : Topo o2) (s : Sched.St Var Val) :
+    runList o1 s = runList o2 s :=
+  schedule_independent o1 o2 hperm hwf hsw h1 h2 s
+
+/-! ## the executable model -/
+
+/-- the design-level well-formedness the theorems need, as the Boolean the driver evaluates -/
+def wfBlocks (bs : List Blk) : Bool := bs.all (·.noSelf) && singleWriterB bs
+
+theorem wf_denote (bs : List Blk) (h : wfBlocks bs = true) :
+    (∀ b ∈ bs.map denote, b.Wf) ∧ SingleWriter (bs.map denote) := by
+  unfold wfBlocks at h
+  simp only [Bool.and_eq_true, List.all_eq_true] at h
+  refine ⟨?_, singleWriterB_sound bs h.2⟩
+  intro b hb
+  obtain ⟨c, hc, rfl⟩ := List.mem_map.mp hb
+  exact denote_wf c (h.1 c hc)
+
+/-- any two legal schedules of the same blocks compute the same values for every signal bit -/
+theorem any_order (bs1 bs2 : List Blk) (hperm : bs1.Perm bs2) (hwf : wfBlocks bs1 = true)
+    (h1 : topoB bs1 = true) (h2 : topoB bs2 = true) (s : St) :
+    runBlocks bs1 s = runBlocks bs2 s := by
+  rw [runBlocks_eq, runBlocks_eq]
+  obtain ⟨hw, hsw⟩ := wf_denote bs1 hwf
+  exact schedule_independent _ _ (hperm.map _) hw hsw (topoB_sound bs1 h1) (topoB_sound bs2 h2) s
+
+/-- after evaluation, re-running any update block changes nothing (the state is a fixed point) -/
+theorem rerun_noop (bs : List Blk) (hwf : wfBlocks bs = true) (h : topoB bs = true) (s : St) :
+    ∀ b ∈ bs, b.run (runBlocks bs s) = runBlocks bs s := by
+  intro b hb
+  rw [runBlocks_eq]
+  obtain ⟨hw, hsw⟩ := wf_denote bs hwf
+  exact fixed_point_of_topo _ hw hsw (topoB_sound bs h) s (denote b) (List.mem_map_of_mem hb)
+
+/-- the computed values are the unique solution of the design's dataflow equations: any state that
+satisfies every block's equation and agrees with the start state on the un-driven bits (inputs,
+registers) equals it -/
+theorem dataflow_unique (bs : List Blk) (hwf : wfBlocks bs = true) (h : topoB bs = true) (s t : St)
+    (hin : ∀ v, (∀ b ∈ bs, ¬ inRngs b.writes v) → t v = s v)
+    (ht : ∀ b ∈ bs, b.run t = t) : t = runBlocks bs s := by
+  obtain ⟨hw, hsw⟩ := wf_denote bs hwf
+  apply unique_fixed_point (bs.map denote) hw (topoB_sound bs h)
+  · intro v hv
+    have hv' : ∀ b ∈ bs, ¬ inRngs b.writes v := fun b hb => hv (denote b) (List.mem_map_of_mem hb)
+    rw [hin v hv', runBlocks_eq, runList_frame _ hw s v hv]
+  · intro b hb
+    obtain ⟨c, hc, rfl⟩ := List.mem_map.mp hb
+    exact ht c hc
+  · intro b hb
+    obtain ⟨c, hc, rfl⟩ := List.mem_map.mp hb
+    exact rerun_noop bs hwf h s c hc
+
+/-- the whole clock tick is independent of the comb schedule (any two legal ones) and of the order of
+the flip-flop blocks (any permutation) -/
+theorem tick_indep (c1 c2 f1 f2 : List Blk) (hc : c1.Perm c2) (hf : f1.Perm f2)
+    (hwf : wfBlocks c1 = true) (h1 : topoB c1 = true) (h2 : topoB c2 = true)
+    (hfsw : singleWriterB f1 = true) (st : FState) :
+    tick c1 f1 st = tick c2 f2 st := by
+  rw [PV.C07.tick_ff_perm c1 f1 f2 hf hfsw]
+  have hrun : runBlocks c1 = runBlocks c2 := funext (any_order c1 c2 hc hwf h1 h2)
+  unfold tick evalComb
+  simp only [hrun]
+
+/-! ## non-vacuity: a diamond with two different legal schedules -/
+def dA : Blk := ⟨0, [⟨⟨1, 0, 4⟩, .rd ⟨0, 0, 4⟩⟩]⟩                               -- w1 @= in
+def dB : Blk := ⟨1, [⟨⟨2, 0, 4⟩, .not 4 (.rd ⟨1, 0, 4⟩)⟩]⟩                      -- w2 @= ~w1
+def dC : Blk := ⟨2, [⟨⟨3, 0, 4⟩, .bin .add 4 (.rd ⟨1, 0, 4⟩) (.const 4 1)⟩]⟩    -- w3 @= w1 + 1
+def dD : Blk := ⟨3, [⟨⟨4, 0, 4⟩, .bin .xor 4 (.rd ⟨2, 0, 4⟩) (.rd ⟨3, 0, 4⟩)⟩]⟩ -- out @= w2 ^ w3
+example : wfBlocks [dA, dB, dC, dD] = true ∧ topoB [dA, dB, dC, dD] = true ∧ topoB [dA, dC, dB, dD] = true ∧
+    topoB [dB, dA, dC, dD] = false := by decide
+
 end PV.C01
